@@ -1,10 +1,43 @@
 PROPS["C17"] = dict(
     level="exploration",
-    technique="generated capture files read back through the real FileSniffer with a per-packet frame-index oracle (direct parser + libpcap called directly), under ASan/UBSan",
-    level_text="placeholder",
-    level_note="placeholder",
+    technique="generated capture files (real PacketWriter / own pcap encoder) read back through the real FileSniffer under ASan/UBSan; "
+              "frame-index oracle after every delivered packet: parses(f) = top-level parser called directly on an exact-size copy, filter(f) = libpcap called directly",
+    level_text="Per link type {EN10MB, IEEE802_11, IEEE802_11_RADIO, NULL, LINUX_SLL, RAW, PPI} files of 0..1000 frames are (a) written by the real PacketWriter (every write overload, "
+               "both constructors, moved writers) from API-built packets and packets parsed from snap-truncated frames, then decoded by the monitor's own pcap decoder and compared record by "
+               "record (bytes, incl_len/orig_len, exact or wall-clock timestamp, global header), or (b) produced by the monitor's own pcap encoder from valid, mutated, random, zero-length, "
+               "65535-byte, too-short and link-type-specific frames (PPI with unknown DLT / bad length / FCS flag, RAW with bad version nibble, Dot3 boundary, RadioTap bad length), records with "
+               "caplen<len, and clean / partial-header / partial-data / bogus-length file tails. Every file is read back through FileSniffer (4 constructors, pcap_loop or pcap_dispatch, moved "
+               "sniffers) by a random program of driver segments: next_packet (Packet and PDU*), sniff_loop with all 6 callback signatures x {max_packets, stop by false, to the end} x callbacks "
+               "throwing malformed_packet/pdu_not_found, range-for, ++it and it++ iteration; raw extraction is toggled and filters are replaced between segments. After EVERY delivered packet the "
+               "monitor checks by frame index: no deliverable frame skipped, no undeliverable frame delivered, timestamp (sec, usec) of that frame, structure equal to the direct parse, bytes "
+               "equal (serialize of clean frames, payload in raw mode), chunk sizes of sniff_loop; at the end: no deliverable frame left, the sniffer stays at the end, no exception escaped. "
+               "(c) filters from a 26-atom grammar with and/or/not, via SnifferConfiguration, the filter-string constructors, set_filter (also mid-file) and via OfflinePacketFilter "
+               "(buffer and PDU overloads, copy-constructed and copy-assigned objects, several snap lengths) must select exactly what pcap_offline_filter selects and must be rejected "
+               "(invalid_pcap_filter / false) exactly when pcap_compile rejects them.",
+    level_note="Trusted: libpcap 1.10 (file reading, pcap_compile, pcap_offline_filter) as reference for filter(f) - the sniffer's filters are compiled by the monitor on libpcap's own handle of the "
+               "same file, the offline ones on pcap_open_dead; frames on which libpcap's optimized and unoptimized programs disagree are not judged; expressions the optimizer proves empty may be "
+               "accepted or rejected. parses(f) is the library's own top-level parser run directly (as the property defines it) on an exact-size heap copy, so over-reads invisible inside libpcap's "
+               "buffer are visible to ASan there. Zero-length DLT_RAW frames may be skipped or delivered (the version nibble read is inside libpcap's buffer), frames after them must arrive. "
+               "Timestamps: sec < 2^31, usec < 10^6. Three genuine defects are isolated under their own keys (fixes/C17-1..3.md); args probes=0 switches those probes off.",
     phases=[dict(name="files", harness="c17.cpp", flavor="asan", mode="random", cases=dict(quick=6000, thorough=100000), args=dict(probes=1))],
-    rule="placeholder",
-    floors=dict(any={"distinct": 100}),
-    assumptions=[],
+    rule="case = (link type = index mod 7, producer in {PacketWriter, own encoder}, 0..1000 frames with unique timestamps, optional filter expression, file tail, random program of reader driver "
+         "segments); distinct = distinct (link type, producer, filter, sequence of (frame class, size, parses)); non-trivial = every file is read to its end with a check after each delivered packet",
+    floors=dict(any={
+        "distinct": 4000, "frames": 150000, "checks:order": 100000, "checks:timestamp": 60000, "checks:structure": 40000, "checks:bytes-serialize": 25000, "checks:bytes-raw": 40000,
+        "files:EN10MB": 700, "files:IEEE802_11": 700, "files:IEEE802_11_RADIO": 700, "files:NULL": 700, "files:LINUX_SLL": 700, "files:RAW": 700, "files:PPI": 700,
+        "writer:files": 1000, "writer:records-verified": 40000, "writer:timestamps-exact": 20000, "writer:packets-parsed-from-truncated-frame": 1000,
+        "frames:parser-throws-malformed_packet": 20000, "frames:no-parser-applies": 3000, "frames:0-bytes": 4000, "frames:65535-bytes": 100, "frames:caplen<len": 5000,
+        "special:ppi-unknown-dlt": 300, "special:raw-bad-version": 1000, "special:dot3-boundary": 1000,
+        "ts:usec=0": 4000, "ts:usec=999999": 4000, "open-error:missing-file": 40, "open-error:bad-magic-FILE*": 40, "open-error:writer-unwritable-path": 40,
+        "eof:reached": 5000, "eof:stays-at-end": 4000, "eof:partial-record-header": 200, "eof:partial-record-data": 200, "eof:bogus-record-length": 200,
+        "delivered:next_packet": 10000, "delivered:range-for": 10000, "delivered:iterator(it++)": 10000, "delivered:sniff_loop(Packet&)": 10000, "delivered:sniff_loop(PDU&)": 10000,
+        "delivered:sniff_loop(HandlerProxy)": 10000, "sniff_loop:max_packets": 1000, "sniff_loop:stopped-by-false": 1000, "cb:threw-swallowed-type": 5000,
+        "filter:files": 1500, "filter:compile-error-reported": 150, "set_filter:midfile-applied": 500, "offline:buffer-checks": 60000, "offline:pdu-checks": 10000,
+        "offline:match": 20000, "offline:no-match": 20000, "offline:compile-error-thrown": 300, "offline:assigned": 1000, "raw-mode:toggled": 600, "sniffer:moved": 200,
+    }),
+    assumptions=["libpcap (the system's 1.10.x) reads the files, compiles and evaluates the reference filters; it is called directly by the monitor, not through libtins",
+                 "parses(f) is defined as the library's top-level parser of the link type called directly (EthernetII/Dot3 by the monitor's own 'byte 12 < 8' rule, IP/IPv6 by the version nibble)",
+                 "clean API-built frames are additionally compared byte for byte through serialize(); arbitrary frames are compared by structure (type, header and trailer size per layer, payload hash) "
+                 "so that serialization defects of other properties are not reported here",
+                 "workers write their files into the run directory (cwd) under worker- and case-unique names and remove them at the end of the case"],
 )
